@@ -15,6 +15,7 @@ fn main() {
     let a = report::parse_args(&args[1..]);
     match which.to_lowercase().as_str() {
         "c18" => c18::main(&a),
+        "c16" => c18::c16_async(&a),
         "c17" => c18::c17_async(&a),
         "c19" => c18::c19_async(&a),
         other => report::machinery(&format!("unknown check {other}")),
